@@ -8,10 +8,12 @@ TYPES = ["int", "long", "char", "unsigned", "short", "double"]
 
 
 class Line:
-    __slots__ = ("depth", "toks", "stmt", "kind", "brace_body")
+    __slots__ = ("depth", "toks", "stmt", "kind", "brace_body", "nsb")
 
-    def __init__(self, depth, toks, stmt=True, kind="stmt"):
-        self.depth, self.toks, self.stmt, self.kind = depth, toks, stmt, kind
+    def __init__(self, depth, toks, stmt=True, kind="stmt", nsb=0):
+        # nsb: number of enclosing brace blocks that belong to a statement (if/else/for/while/do/switch), counting the
+        # block whose brace starts this line ('close'/'else' kinds): the blocks that the indent_brace option bumps
+        self.depth, self.toks, self.stmt, self.kind, self.nsb = depth, toks, stmt, kind, nsb
 
 
 def expr(r, d=0):
@@ -42,56 +44,89 @@ def simple(r):
     return [r.choice(IDENT), r.choice(["+=", "-=", "*=", "|="])] + expr(r) + [";"]
 
 
-def block(r, depth, budget, lines, max_depth):
+def block(r, depth, budget, lines, max_depth, nsb=0, rich=False):
     """emit 1..n statements at [depth]"""
     n = r.randint(1, 3)
     for _ in range(n):
-        stmt(r, depth, budget, lines, max_depth)
+        stmt(r, depth, budget, lines, max_depth, nsb, rich)
 
 
-def stmt(r, depth, budget, lines, max_depth):
+def stmt(r, depth, budget, lines, max_depth, nsb=0, rich=False):
     budget[0] -= 1
     k = r.random()
+    L = lambda d, toks, **kw: Line(d, toks, nsb=kw.pop("n", nsb), **kw)
     if depth >= max_depth or budget[0] <= 0 or k < 0.45:
-        lines.append(Line(depth, simple(r)))
+        lines.append(L(depth, simple(r)))
         return
     if k < 0.65:
-        lines.append(Line(depth, ["if", "("] + expr(r) + [")", "{"], kind="open"))
-        block(r, depth + 1, budget, lines, max_depth)
+        lines.append(L(depth, ["if", "("] + expr(r) + [")", "{"], kind="open"))
+        block(r, depth + 1, budget, lines, max_depth, nsb + 1, rich)
+        while rich and r.random() < 0.4:
+            lines.append(L(depth, ["}", "else", "if", "("] + expr(r) + [")", "{"], stmt=False, kind="else", n=nsb + 1))
+            block(r, depth + 1, budget, lines, max_depth, nsb + 1, rich)
         if r.random() < 0.4:
-            lines.append(Line(depth, ["}", "else", "{"], stmt=False, kind="else"))
-            block(r, depth + 1, budget, lines, max_depth)
-        lines.append(Line(depth, ["}"], stmt=False, kind="close"))
+            lines.append(L(depth, ["}", "else", "{"], stmt=False, kind="else", n=nsb + 1))
+            block(r, depth + 1, budget, lines, max_depth, nsb + 1, rich)
+        lines.append(L(depth, ["}"], stmt=False, kind="close", n=nsb + 1))
     elif k < 0.75:
-        lines.append(Line(depth, ["while", "("] + expr(r) + [")", "{"], kind="open"))
-        block(r, depth + 1, budget, lines, max_depth)
-        lines.append(Line(depth, ["}"], stmt=False, kind="close"))
+        lines.append(L(depth, ["while", "("] + expr(r) + [")", "{"], kind="open"))
+        block(r, depth + 1, budget, lines, max_depth, nsb + 1, rich)
+        lines.append(L(depth, ["}"], stmt=False, kind="close", n=nsb + 1))
     elif k < 0.83:
         v = r.choice(IDENT)
-        lines.append(Line(depth, ["for", "(", v, "=", "0", ";", v, "<", str(r.randint(1, 9)), ";", v, "++", ")", "{"], kind="open"))
-        block(r, depth + 1, budget, lines, max_depth)
-        lines.append(Line(depth, ["}"], stmt=False, kind="close"))
+        lines.append(L(depth, ["for", "(", v, "=", "0", ";", v, "<", str(r.randint(1, 9)), ";", v, "++", ")", "{"], kind="open"))
+        block(r, depth + 1, budget, lines, max_depth, nsb + 1, rich)
+        lines.append(L(depth, ["}"], stmt=False, kind="close", n=nsb + 1))
     elif k < 0.88:
-        lines.append(Line(depth, ["do", "{"], kind="open"))
-        block(r, depth + 1, budget, lines, max_depth)
-        lines.append(Line(depth, ["}", "while", "("] + expr(r) + [")", ";"], stmt=False, kind="close"))
+        if rich and r.random() < 0.5:
+            lines.append(L(depth, ["switch", "("] + expr(r) + [")", "{"], kind="open"))
+            for ci in range(r.randint(1, 3)):
+                lines.append(L(depth, ["case", str(ci), ":"] if r.random() < 0.8 else ["default", ":"], stmt=False, kind="case", n=nsb + 1))
+                lines.append(L(depth + 1, simple(r), n=nsb + 1))      # (a brace directly after a case label is the case's own block: indent_case_brace)
+                block(r, depth + 1, budget, lines, max_depth, nsb + 1, rich)
+                lines.append(L(depth + 1, ["break", ";"], n=nsb + 1))
+            lines.append(L(depth, ["}"], stmt=False, kind="close", n=nsb + 1))
+        else:
+            lines.append(L(depth, ["do", "{"], kind="open"))
+            block(r, depth + 1, budget, lines, max_depth, nsb + 1, rich)
+            lines.append(L(depth, ["}", "while", "("] + expr(r) + [")", ";"], stmt=False, kind="close", n=nsb + 1))
     elif k < 0.93:
-        lines.append(Line(depth, ["{"], kind="open"))
-        block(r, depth + 1, budget, lines, max_depth)
-        lines.append(Line(depth, ["}"], stmt=False, kind="close"))
+        lines.append(L(depth, ["{"], kind="open"))
+        block(r, depth + 1, budget, lines, max_depth, nsb, rich)
+        lines.append(L(depth, ["}"], stmt=False, kind="close"))
     else:   # brace-less body: one level deeper (virtual braces)
-        lines.append(Line(depth, ["if", "("] + expr(r) + [")"], kind="vopen"))
-        lines.append(Line(depth + 1, simple(r)))
+        lines.append(L(depth, ["if", "("] + expr(r) + [")"], kind="vopen"))
+        lines.append(L(depth + 1, simple(r)))
 
 
-def program(r, nfunc=2, max_depth=4, size=25):
+def program(r, nfunc=2, max_depth=4, size=25, rich=False):
+    """rich: also else-if chains and switch/case (used where the expected columns have a closed form for them)"""
     lines = []
     for f in range(nfunc):
         lines.append(Line(0, [r.choice(TYPES), "fn%d" % f, "(", r.choice(TYPES), r.choice(IDENT), ")", "{"], kind="open"))
         budget = [size]
-        block(r, 1, budget, lines, max_depth)
+        block(r, 1, budget, lines, max_depth, 0, rich)
         lines.append(Line(0, ["}"], stmt=False, kind="close"))
     return lines
+
+
+def allman(lines):
+    """the same program with every opening brace on a line of its own and 'else' on its own line"""
+    out = []
+    for ln in lines:
+        t = ln.toks
+        if ln.kind == "else":       # } else [if (..)] {
+            out.append(Line(ln.depth, ["}"], stmt=False, kind="close", nsb=ln.nsb))
+            out.append(Line(ln.depth, t[1:-1], stmt=False, kind="else-head", nsb=ln.nsb - 1))
+            out.append(Line(ln.depth, ["{"], stmt=False, kind="brace", nsb=ln.nsb))
+        elif ln.kind == "open" and len(t) > 1 and t[-1] == "{":
+            head = Line(ln.depth, t[:-1], kind="head", nsb=ln.nsb)
+            out.append(head)
+            is_stmt = t[0] in ("if", "while", "for", "do", "switch")
+            out.append(Line(ln.depth, ["{"], stmt=False, kind="brace", nsb=ln.nsb + (1 if is_stmt else 0)))
+        else:
+            out.append(ln)
+    return out
 
 
 def join_tokens(r, toks, loose):
